@@ -1,4 +1,5 @@
 """C04 -- a composite behaves like an array of its units (SH1, S1, RO, U1)."""
+from ..rules import numpy_rules as NP
 from ..rules import proj_rules as P
 from ..rules import cache_rules as CA
 from ..rules import shape_rules as S
@@ -38,6 +39,7 @@ def run(ctx):
     ctx.do(CA.rule_c2, "ProjectiveObject", scope=ctx.scope(ENTRIES + GEOMETRY))
     ctx.do(SI.rule_mean1, [SI.HYP], min_sites=2)
     ctx.do(S.rule_ax1, [CORE, "geometry_tools/hyperbolic.py", PROJ])
+    ctx.do(NP.rule_mk2, [CORE, "geometry_tools/hyperbolic.py", PROJ, "geometry_tools/lie/core.py", "geometry_tools/complex_projective.py"])
     ctx.do(P.rule_s1, ops=[(PROJ, "ProjectiveObject.reshape"),
                         (PROJ, "ProjectiveObject.flatten_to_unit"),
                         (PROJ, "ProjectiveObject._construct_from_object"),
